@@ -61,6 +61,7 @@ fn lfo_op(fs: f32) -> BoxedStrategy<LfoOp> {
         1 => Just(LfoOp::Reset),
         2 => (0u8..120).prop_map(LfoOp::Read),
         1 => (lfo_freq(fs), lfo_freq(fs), proptest::sample::select(vec![255u16, 256, 257, 512, 20, 3])).prop_map(|(a, b, n)| LfoOp::FreqBurst { a, b, n }),
+        1 => (lfo_phase(), lfo_phase(), proptest::sample::select(vec![255u16, 256, 257, 512, 511, 20, 3]), any::<bool>()).prop_map(|(a, b, n, with_reset)| LfoOp::PhaseBurst { a, b, n, with_reset }),
         1 => prop_oneof![6 => (1u32..=64).prop_map(LfoOp::Tick), 1 => Just(LfoOp::Tick(70_000)), 1 => Just(LfoOp::Tick(16_384)), 1 => Just(LfoOp::Tick(1024))],
     ]
     .boxed()
